@@ -776,10 +776,12 @@ impl<'p, W, R, T> CompilationScope<'p, W, R, T> {
                     }
                     None => return Err(CompilationError::ValueNotFound { name }),
                 };
+                // using a function as a value counts as a use of its forward dependencies,
+                // whichever scope it was declared in
+                self.require_forwards(forward_requirements)?;
                 let new_cell_idx = if height == self.height {
                     cell_idx
                 } else {
-                    self.require_forwards(forward_requirements)?;
                     let new_cell = Cell::Capture {
                         ancestor_depth: self.height - height,
                         cell_idx,
